@@ -179,7 +179,7 @@ pub fn run(r: &mut Runner) -> &'static str {
     r.assumptions.push("R-V2 (harness/src/oracle/v2.rs) transcribes the statement of C02".into());
 
     let n = r.n(300_000, 6_000_000);
-    r.random("c02.random", n, 200, &gen_case, &judge);
+    r.random("c02.random", n, 200, &gen_case, &|x: &Vec<u8>, st: &mut Stats| crate::engine::in_arena(x, |v| judge(v, st)));
 
     // chains of related inputs judged back to back (history independence)
     let n = r.n(40_000, 1_000_000);
